@@ -21,6 +21,11 @@ func checkC11(c *Check) {
 		"staleness comparisons have the direction that can ever be true."
 	c.notCover = "the run-time invariant '≤ N holders' itself (follows from channel semantics given pairing), reaping of a bucket whose permits are still held, timing."
 
+	c.Rule("L1", "limiter locks: every mutex the package's functions take is released on every path to a return, and nothing unlocks a mutex it does not hold (immediate or deferred; function literals separately)", 2)
+	lockBalance(c, "L1", []string{limitersRel, limitsRel}, nil)
+	c.Rule("L2", "the bucket table of a BucketSet is only touched while its mutex is held (a permit taken from a bucket that a concurrent reaper just replaced is never given back to the bucket that counts it)", 3)
+	locksetRule(c, "L2", limitersRel, "BucketSet", "mLck", []string{"m"}, map[string]string{})
+
 	c11Wiring(c)
 	c11Pairing(c)
 	c11NoCrash(c)
